@@ -360,7 +360,7 @@ class NpProxy:
                     return 1
                 return 0
             idx.sort(key=functools.cmp_to_key(cmp))
-            return s._np.array(idx)
+            return s._np.array(idx, dtype=int)
         return s._np.argsort(x, *a, **k)
 
     def sort(s, x, *a, **k):
@@ -407,11 +407,12 @@ class NpProxy:
             return _view(s._np.kron(a, b))
         return s._np.kron(a, b)
 
-    def linspace(s, a, b, num=50, **k):
+    def linspace(s, a, b, num=50, endpoint=True, **k):
         if is_sym(a) or is_sym(b):
             a, b = SymC.of(a), SymC.of(b)
-            return sarr([a + (b - a) * (SymC.of(i) / (num - 1)) for i in range(num)])
-        return s._np.linspace(a, b, num, **k)
+            div = (num - 1) if endpoint else num
+            return sarr([a + (b - a) * (SymC.of(i) / div) for i in range(num)])
+        return s._np.linspace(a, b, num, endpoint, **k)
 
 
 def _viewall(r):
